@@ -143,7 +143,7 @@ type txTmpl struct {
 	Acct  int    `json:"acct"`
 	Off   int    `json:"nonce_offset"` // relative to the sender's nonce at the chain head when the op runs
 	Price uint64 `json:"price"`
-	Kind  int    `json:"kind"` // 0 plain, 1 over balance, 2 gas above block limit, 3 gas 30000, 4 variant (same nonce/price, other hash)
+	Kind  int    `json:"kind"` // 0 plain, 1 over balance, 2 gas above block limit, 3 gas 30000, 4 variant (same nonce/price, other hash), 5 replacement that becomes the sender's costliest tx
 }
 
 type headTmpl struct {
@@ -153,6 +153,11 @@ type headTmpl struct {
 	BaseFee  uint64         `json:"base_fee"`
 	GasLimit uint64         `json:"gas_limit"`
 	Qi       int            `json:"qi_tx"` // index of a Qi transaction included in the block, -1 none
+	// Boundary: 0 none; balance of BAcct (or the next account that has pooled txs) set to 1: c1-1, 2: c1, 3: c2-1, where
+	// c1 > c2 are the two highest distinct costs among that account's currently pooled txs; block gas limit set to
+	// 4: g1-1, 5: g1, where g1 is the highest gas among all pooled txs (pool content read through VerifSnapshot)
+	Boundary int `json:"boundary"`
+	BAcct    int `json:"boundary_acct"`
 }
 
 type concOp struct {
@@ -204,15 +209,17 @@ func genTx(r *rand.Rand, nAcct int) txTmpl {
 		t.Off = 7
 	}
 	switch x := r.Intn(100); {
-	case x < 80:
-	case x < 86:
+	case x < 72:
+	case x < 78:
 		t.Kind = 1
-	case x < 90:
+	case x < 82:
 		t.Kind = 2
-	case x < 95:
+	case x < 87:
 		t.Kind = 3
-	default:
+	case x < 92:
 		t.Kind = 4
+	default:
+		t.Kind = 5
 	}
 	return t
 }
@@ -221,6 +228,9 @@ func genHead(r *rand.Rand, nAcct int) headTmpl {
 	h := headTmpl{FromPool: r.Intn(4) > 0, BaseFee: []uint64{5, 10, 10, 10, 12}[r.Intn(5)], GasLimit: 5_000_000, Qi: -1}
 	if r.Intn(5) == 0 {
 		h.Qi = r.Intn(nQiTx)
+	}
+	if r.Intn(10) < 3 {
+		h.Boundary, h.BAcct = 1+r.Intn(5), r.Intn(nAcct)
 	}
 	if r.Intn(12) == 0 {
 		h.GasLimit = 25_000
@@ -364,6 +374,9 @@ type concRun struct {
 
 	counts map[string]int64
 	cntMu  sync.Mutex
+
+	okMu  sync.Mutex
+	okTxs map[int][]txKey // per account: transactions the pool accepted in this run
 }
 
 func (cr *concRun) count(k string) {
@@ -380,6 +393,31 @@ func (cr *concRun) resolve(t txTmpl) *txInfo {
 		n = 0
 	}
 	k := txKey{acct: t.Acct, nonce: uint64(n), price: t.Price, gas: 21000}
+	if t.Kind == 5 {
+		// replace the most recently accepted, still unmined transaction of the sender with one that is priced (and,
+		// two times out of three, gassed) above everything the sender got accepted: the sender's costliest tx
+		cr.okMu.Lock()
+		var target *txKey
+		maxPrice := uint64(0)
+		for i := range cr.okTxs[t.Acct] {
+			c := &cr.okTxs[t.Acct][i]
+			if c.price > maxPrice {
+				maxPrice = c.price
+			}
+			if int64(c.nonce) >= base {
+				target = c
+			}
+		}
+		if target != nil && maxPrice < 1_000_000 {
+			k.nonce, k.price = target.nonce, maxPrice*12/10+1
+			if t.Off != 1 {
+				k.gas = 30_000
+			}
+			cr.count("costliest-replacement-built")
+		}
+		cr.okMu.Unlock()
+		return mkTx(k)
+	}
 	switch t.Kind {
 	case 1:
 		k.value = 2_000_000_000 // 2e21 wei: above every balance
@@ -443,6 +481,11 @@ func (cr *concRun) exec(g, phase int, op concOp) {
 			c := errClass(errs[i])
 			rs = append(rs, c)
 			cr.count("result:" + c)
+			if errs[i] == nil {
+				cr.okMu.Lock()
+				cr.okTxs[ti.key.acct] = append(cr.okTxs[ti.key.acct], ti.key)
+				cr.okMu.Unlock()
+			}
 		}
 		desc = op.Kind + "[" + strings.Join(ds, " ") + "]"
 		res = strings.Join(rs, " ")
@@ -581,11 +624,67 @@ func (cr *concRun) produce(op concOp) string {
 			b, _ := new(big.Int).SetString(v, 10)
 			setBal[a] = b
 		}
+		spec := headSpec{ht.BaseFee, ht.GasLimit}
+		bnote := ""
+		if ht.Boundary > 0 {
+			snap := cr.rig.pool.VerifSnapshot()
+			if ht.Boundary <= 3 {
+				for d := 0; d < cr.plan.NAcct; d++ {
+					a := (ht.BAcct + d) % cr.plan.NAcct
+					x := snap.Accounts[accounts()[a].ia]
+					if x == nil {
+						continue
+					}
+					var costs []*big.Int
+					for _, tx := range append(append(types.Transactions{}, x.Pending...), x.Queue...) {
+						c, dup := tx.Cost(), false
+						for _, o := range costs {
+							dup = dup || o.Cmp(c) == 0
+						}
+						if !dup {
+							costs = append(costs, c)
+						}
+					}
+					if len(costs) == 0 {
+						continue
+					}
+					sort.Slice(costs, func(i, j int) bool { return costs[i].Cmp(costs[j]) > 0 })
+					v := new(big.Int).Set(costs[0])
+					switch {
+					case ht.Boundary == 1 || (ht.Boundary == 3 && len(costs) < 2):
+						v.Sub(v, big.NewInt(1))
+					case ht.Boundary == 3:
+						v.Sub(costs[1], big.NewInt(1))
+					}
+					setBal[a] = v
+					bnote = fmt.Sprintf(" boundary-balance[a%d]=%s", a, v)
+					cr.count("boundary-balance-head")
+					break
+				}
+			} else {
+				g1 := uint64(0)
+				for _, x := range snap.Accounts {
+					for _, tx := range append(append(types.Transactions{}, x.Pending...), x.Queue...) {
+						if tx.Gas() > g1 {
+							g1 = tx.Gas()
+						}
+					}
+				}
+				if g1 > 0 {
+					spec.GasLimit = g1
+					if ht.Boundary == 4 {
+						spec.GasLimit = g1 - 1
+					}
+					bnote = fmt.Sprintf(" boundary-gas-limit=%d", spec.GasLimit)
+					cr.count("boundary-gas-limit-head")
+				}
+			}
+		}
 		var extra []*types.Transaction
 		if cr.plan.Qi && cr.qi != nil && ht.Qi >= 0 && cr.qi.txs[ht.Qi%len(cr.qi.txs)].kind == "valid" {
 			extra = append(extra, cr.qi.txs[ht.Qi%len(cr.qi.txs)].tx)
 		}
-		b := c.extend(parent, mined, setBal, headSpec{ht.BaseFee, ht.GasLimit}, extra...)
+		b := c.extend(parent, mined, setBal, spec, extra...)
 		var ms []string
 		for _, tx := range b.txs {
 			if tx.Type() == types.QiTxType {
@@ -594,7 +693,7 @@ func (cr *concRun) produce(op concOp) string {
 			}
 			ms = append(ms, txDesc(tx))
 		}
-		descs = append(descs, fmt.Sprintf("#%d{mined:%v bal:%v fee:%d gas:%d}", b.num, ms, ht.SetBal, ht.BaseFee, ht.GasLimit))
+		descs = append(descs, fmt.Sprintf("#%d{mined:%v bal:%v fee:%d gas:%d%s}", b.num, ms, ht.SetBal, ht.BaseFee, spec.GasLimit, bnote))
 		parent = b
 		if op.Each || i == len(op.Heads)-1 {
 			c.announce(b)
@@ -641,7 +740,7 @@ func runOne(m *mon.M, plan *runPlan, logger *log.Logger, watch *logWatch, sdb st
 	var pdb = qiE.database(logger)
 	r := newRig(logger, watch, plan.cfg, sdb, plan.NAcct, plan.bals, headSpec{10, 5_000_000}, pdb)
 	// own PRNG per run: goroutines of an earlier (stopped) pool may still be inside the previous run's action
-	cr := &concRun{m: m, plan: plan, rig: r, sch: newSched(rand.New(rand.NewSource(hookRand.Int63())), plan.Pattern), counts: map[string]int64{}, qi: qiE}
+	cr := &concRun{m: m, plan: plan, rig: r, sch: newSched(rand.New(rand.NewSource(hookRand.Int63())), plan.Pattern), counts: map[string]int64{}, qi: qiE, okTxs: map[int][]txKey{}}
 	if qiE != nil {
 		qiE.attach(r.chain)
 	}
@@ -788,7 +887,9 @@ func TestC19Conc(t *testing.T) {
 	nRuns := m.N(60, 3000)
 	opsPerRun := 400
 	m.Rule(fmt.Sprintf("%d runs x ~%d operations by 4-16 goroutines (AddLocal/AddRemote(s)/AddRemotesSync with valid, gapped, stale, replacing, underpriced, over-balance and over-gas-limit transactions; "+
-		"SetGasPrice; head events with mined transactions, balance changes, base-fee and gas-limit changes; reorgs 1-3 deep that resurrect transactions; read API calls; Qi add/remove when available) "+
+		replacements priced/gassed to become the sender's costliest tx; "+
+		"SetGasPrice; head events with mined transactions, balance changes, base-fee and gas-limit changes, and (30% of heads) a balance or block gas limit at the boundary "+
+		"(c1-1, c1, c2-1 / g1-1, g1) of the costs / gas of the currently pooled transactions; reorgs 1-3 deep that resurrect transactions; read API calls; Qi add/remove when available) "+
 		"on a pool with AccountSlots 2, GlobalSlots 6, AccountQueue 2, GlobalQueue 6, PriceBump 10; verifhook delays in 6 patterns; 4 quiescent points per run; "+
 		"distinct = distinct (run, hook-hit-order hash) pairs", nRuns, opsPerRun))
 	m.Assume("quiescent point = all submitting goroutines at a barrier, every announced head event handled by the pool's loop (sentinel events), the pool's own same-head reset served (VerifQuiesce)",
